@@ -458,6 +458,8 @@ class Eval:
     def apply(self, f, args, depth):
         if f[0] == "ctorfn":
             return ("ctor", f[1], tuple((str(i), a) for i, a in enumerate(args)))
+        if f[0] == "closure" and len(f[1]) == len(args) and all("/" not in n for n in f[1]):
+            return subst(f[2], dict(zip(f[1], args)))
         if f[0] == "closure":
             return ("apply", f, tuple(args))
         return ("callv", f, tuple(args))
@@ -475,6 +477,34 @@ class Eval:
             if len(bs) == 1:
                 return self.function(bs[0], args, depth + 1)
         return ("call", name, tuple(args))
+
+
+def subst(t, mapping):
+    """Replace ('param', name) by mapping[name]; nested closures that rebind a name shadow it.
+    ('place', 'name.a.b') rooted in a substituted parameter is re-rooted."""
+    if not isinstance(t, tuple):
+        return t
+    if len(t) == 2 and t[0] == "param" and t[1] in mapping:
+        return mapping[t[1]]
+    if len(t) == 2 and t[0] == "place":
+        root, _, rest = t[1].partition(".")
+        if root in mapping:
+            base = mapping[root]
+            for name in rest.split("."):
+                if base[0] in ("place",):
+                    base = ("place", base[1] + "." + name)
+                elif base[0] == "param":
+                    base = ("place", base[1] + "." + name)
+                elif base[0] == "ctor" and any(f == name for f, _ in base[2]):
+                    base = [v for f, v in base[2] if f == name][0]
+                else:
+                    base = ("fieldof", base, name)
+            return base
+        return t
+    if len(t) == 3 and t[0] == "closure":
+        inner = {k: v for k, v in mapping.items() if k not in t[1] and not any(k in n.split("/") for n in t[1])}
+        return ("closure", t[1], subst(t[2], inner))
+    return tuple(subst(x, mapping) for x in t)
 
 
 def subterms(t):
